@@ -8,17 +8,37 @@ open CryoCat
 variable {α : Type} [CommRing α]
 
 theorem eulerMat_ZXZ (t : Ang3 α) :
-    eulerMat ['Z', 'X', 'Z'] t = ZXZ t.a.c t.a.s t.b.c t.b.s t.c.c t.c.s := by
+    eulerMat ['Z', 'X', 'Z'] t = some (ZXZ t.a.c t.a.s t.b.c t.b.s t.c.c t.c.s) := by
   simp [eulerMat, axisRot, ZXZ, Char.isUpper]
 theorem eulerMat_ZYZ (t : Ang3 α) :
-    eulerMat ['Z', 'Y', 'Z'] t = ZYZ t.a.c t.a.s t.b.c t.b.s t.c.c t.c.s := by
+    eulerMat ['Z', 'Y', 'Z'] t = some (ZYZ t.a.c t.a.s t.b.c t.b.s t.c.c t.c.s) := by
   simp [eulerMat, axisRot, ZYZ, Char.isUpper]
 theorem eulerMat_zxz (t : Ang3 α) :
-    eulerMat ['z', 'x', 'z'] t = zxz t.a.c t.a.s t.b.c t.b.s t.c.c t.c.s := by
-  simp [eulerMat, axisRot, zxz, Char.isUpper]
+    eulerMat ['z', 'x', 'z'] t = some (zxz t.a.c t.a.s t.b.c t.b.s t.c.c t.c.s) := by
+  simp [eulerMat, axisRot, zxz, Char.isUpper, Char.isLower]
 
-theorem particleMat_eq (t : Ang3 α) : particleMat t = zxz t.a.c t.a.s t.b.c t.b.s t.c.c t.c.s := eulerMat_zxz t
-theorem relionMat_eq (t : Ang3 α) : relionMat t = ZYZ t.a.c t.a.s t.b.c t.b.s t.c.c t.c.s := eulerMat_ZYZ t
+theorem particleMat_eq (t : Ang3 α) : particleMat t = zxz t.a.c t.a.s t.b.c t.b.s t.c.c t.c.s := rfl
+theorem relionMat_eq (t : Ang3 α) : relionMat t = ZYZ t.a.c t.a.s t.b.c t.b.s t.c.c t.c.s := rfl
+
+/-- the matrix handed to scipy on export is the intrinsic ZXZ matrix of (phi, theta, psi): the model does not fail -/
+theorem exportFed_eq (ang : Ang3 α) :
+    exportFed ang = some (ZXZ ang.a.c ang.a.s ang.b.c ang.b.s ang.c.c ang.c.s) := eulerMat_ZXZ ang
+/-- the matrix handed to scipy on import is RELION's ZYZ matrix -/
+theorem importFed_eq (rln : Ang3 α) : importFed rln = some (relionMat rln) := eulerMat_ZYZ rln
+
+/-- export angles, unfolded: (−e₀, e₁, −e₂) of scipy's answer `e` -/
+theorem exportAngles_eq (asEuler : M3 α → Ang3 α) (ang : Ang3 α) :
+    exportAngles asEuler ang =
+      some ⟨(asEuler (ZXZ ang.a.c ang.a.s ang.b.c ang.b.s ang.c.c ang.c.s)).a.neg,
+            (asEuler (ZXZ ang.a.c ang.a.s ang.b.c ang.b.s ang.c.c ang.c.s)).b,
+            (asEuler (ZXZ ang.a.c ang.a.s ang.b.c ang.b.s ang.c.c ang.c.s)).c.neg⟩ := by
+  simp [exportAngles, exportFed_eq, applySlots, Gen.C03.exportSlots, Ang3.slot?, Ang.signed]
+
+/-- import angles, unfolded: (−e₂, −e₁, −e₀) of scipy's answer `e` -/
+theorem importAngles_eq (asEuler : M3 α → Ang3 α) (rln : Ang3 α) :
+    importAngles asEuler rln =
+      some ⟨(asEuler (relionMat rln)).c.neg, (asEuler (relionMat rln)).b.neg, (asEuler (relionMat rln)).a.neg⟩ := by
+  simp [importAngles, importFed_eq, applySlots, Gen.C03.importSlots, Ang3.slot?, Ang.signed]
 
 /-- negating the outer angles of a ZYZ triple is conjugation by the π-rotation about y -/
 theorem ZYZ_neg_outer (ca sa cb sb cc sc : α) :
